@@ -484,6 +484,14 @@ func genCase(rng *rand.Rand) *caseIn {
 		l := mk(0)
 		c.Layers, c.LayersClass = []ocispec.Descriptor{l, mk(1), l}, "dup"
 	}
+	if c.Config != nil && c.Config.Digest == emptyDesc.Digest && rng.IntN(2) == 0 {
+		// a config that is the empty blob together with no layers: both placeholders coincide in content
+		if rng.IntN(2) == 0 {
+			c.Layers, c.LayersClass = nil, "nil"
+		} else {
+			c.Layers, c.LayersClass = []ocispec.Descriptor{}, "empty"
+		}
+	}
 	// subject
 	if rng.IntN(3) == 0 {
 		body := []byte(fmt.Sprintf(`{"schemaVersion":2,"mediaType":%q,"config":{"mediaType":%q,"digest":"sha256:44136fa355b3678a1146ad16f7e8649e94fb4fc21fe77e8310c060f61caaff8a","size":2},"layers":[],"annotations":{"n":"%d"}}`,
